@@ -339,6 +339,11 @@ class Interp:
                     outs = []
                 if len(outs) == 1 and outs[0].kind == 'val' and not outs[0].st.ev and outs[0].val[0] in ('array', 'tuple', 'ctor') and ground(outs[0].val):
                     cache[d] = outs[0].val
+                elif len(outs) == 1 and outs[0].kind == 'val' and range_value(outs[0].val) is not None \
+                        and all(b is None or b[0] == 'lit' for b in range_value(outs[0].val)[1:]) \
+                        and all(ev[0] == 'call' and ev[1] == 'core::ops::range::RangeInclusive::<Idx>::new' for ev in outs[0].st.ev):
+                    # a range of literals (`const R: RangeInclusive<u8> = b'a'..=b'z'`; `a..=b` is the call RangeInclusive::new(a, b))
+                    cache[d] = outs[0].val
         return cache[d]
 
     def ev_Tup(self, e, st):
@@ -1985,6 +1990,31 @@ def range_value(t):
         return ('RangeInclusive', t[2][0], t[2][1])
     return None
 
+def range_as_built(I, node, term, st):
+    """The range a method is called on still has the bounds of the expression that built it (a range is also an iterator: `next`
+    & co. move its start / end, and the term does not follow that): the receiver is the range expression itself or a local bound
+    immutably (not a `&mut`) or a `const` item, and no earlier call on this path received the same range value through a `&mut` (or consumed an
+    element of it: the ordinal cursor).  Anything else: not known (no model)."""
+    r = node.get('recv') if node.get('k') == 'MethodCall' else (node.get('args') or [None])[0]
+    if r is None:
+        return False
+    ty = str(r.get('adj_ty') or r.get('ty') or '')
+    r = hirq.peel_refs(r)
+    if r['k'] == 'Path' and r.get('res') == 'local':
+        d = I.body.defs.get(r['bind'])
+        if d is None or 'Mut' in (d['pat'].get('mode') or 'Mut').split(',')[-1] or str(r.get('ty') or '').startswith('&mut') or ty.startswith('&mut'):
+            return False
+    elif not (r['k'] in ('Struct', 'Call') or (r['k'] == 'Path' and (r.get('defkind') or '').startswith(('Const', 'AssocConst')))):
+        return False            # (a `const` item is its initialiser's value at every mention: a fresh range each time)
+    if st.heap.get(('cursor', term), 0):
+        return False
+    for ev in st.ev:
+        if ev[0] == 'call' and len(ev) > 3 and ev[2] and ev[2][0] == term and isinstance(ev[3], dict):
+            rn = ev[3].get('recv') if ev[3].get('k') == 'MethodCall' else (ev[3].get('args') or [None])[0]
+            if rn is not None and (str(rn.get('adj_ty') or rn.get('ty') or '').startswith('&mut') or rn.get('k') == 'AddrOf' and rn.get('mut')):
+                return False
+    return True
+
 def _cls(*parts):
     s = set()
     for p in parts:
@@ -2426,7 +2456,7 @@ def builtin_summary(I, cal, args, node, st):
         # Exact for all values: on literals it is computed; for a symbolic x (or bound) it is the conjunction of those comparisons.
         rv = range_value(args[0])
         m_ = RANGE_CONTAINS.match(cal)
-        if rv is not None and m_.group(1) in (None, rv[0]):
+        if rv is not None and m_.group(1) in (None, rv[0]) and range_as_built(I, node, args[0], st):
             kind, lo, hi = rv
             x = args[1]
             def cmp_(op, a, b):
